@@ -86,6 +86,19 @@ CHECKS = {
         design_ref="DESIGN.md 4 C06",
         note="Trusted: TLC/SANY/Json; generic-point argument for the multilinear part; float part is sampling with tolerance (floor RMS 1e-2 on numerically-zero blocks).",
     ),
+    "C07": dict(
+        engine="tlc+exploration",
+        technique="TLA+ forward-pass machine (Architectures.tla) model-checked over the bounded constructor space for structural soundness; architectures drawn from the TLC state space are instantiated, parameters perturbed, and model(g.x)=g.model(x) evaluated numerically for all g and period translations",
+        category="model_checking",
+        text=("Structure: TLC checks ArchInv for every configuration (class x signatures incl. pseudo-types x depth x blocks x down-samples x "
+              "num_conv x normalisation x pre-activation x bank key sets x extents): admissible configurations never get stuck (types fed to a "
+              "layer are the types it has weights for, residual sums add equal type sets, skip channel doubling), shape preserved, period "
+              "2^downsamples. Equation (exploration, because TLA+ has no sqrt/eigh/gelu): a stratified sample of the admissible equivariant "
+              "configurations TLC visited is built, every non-bank parameter perturbed off initialisation, and model(g.x) vs g.model(x) is "
+              "measured per output block for all g in B_d plus cyclic translations by the period (tolerance 1e-2, 2-of-3 confirmation)."),
+        design_ref="DESIGN.md 4 C07",
+        note="The equation half is sampling in continuous variables with a tolerance (correct models measure <= 1e-3 on well-conditioned extents); extents chosen so that odd filters do not degenerate.",
+    ),
     "C08": dict(
         engine="tlc+replay",
         technique="TLA+ declarative spec of average/max-by-norm pooling and nearest-neighbour unpooling with PoolLaws (commutes with every g and with patch-length shifts) as TLC invariant on integer images, replayed exactly into the pooling functions and the MaxNormPool layer; normalisation / vector-neuron layers checked by a float metamorphic test with random parameters",
@@ -212,6 +225,19 @@ CHECKS = {
               "against TrainLoop.tla, naming the violated guard."),
         design_ref="DESIGN.md 4 C19",
         note="Trusted: TLC/SANY/Json; the scripted-loss model (SGD lr=1 step counter). Histories bounded (length<=5/7, patience<=2/3).",
+    ),
+    "C20": dict(
+        engine="tlc+trace",
+        technique="TLA+ forward-pass machine over signatures (Architectures.tla) model-checked over the constructor space; recorded forward passes of real models (stage-by-stage, harness-level observers) validated by a TLC trace spec, incl. the ordered output signature; layer-level block order replayed from MC_LayerSig",
+        category="model_checking",
+        text=("TLC checks ArchInv over the bounded constructor space in both modes (channel arithmetic depth*2^level, skip doubling, decode "
+              "emits requested types/channels/order, conventional mode = ToScalar -> scalar stages -> FromScalar(requested)). Real models "
+              "for a stratified sample of admissible and inadmissible configurations are run once; each observable stage (kind, signature, "
+              "extents) and the final ordered signature, extents, D and flags -- or the predicted failure -- are validated by "
+              "Trace_Architectures, which names the violated guard. The decode layer's requested block order is additionally replayed at "
+              "layer level; the positional component placement of the conventional mode is decided in C13."),
+        design_ref="DESIGN.md 4 C20",
+        note="Trusted: TLC/SANY/Json; observers are harness-level wrappers. Extents incompatible with pooling are outside the property (not validated).",
     ),
 }
 
